@@ -127,6 +127,35 @@ CLAIMED["C04"] = dict(
     technique="Coq proof for all contract-satisfying splitter oracles + recorded-oracle differential correspondence + brute-force property monitor",
     design="5/C04")
 
+CLAIMED["C07"] = dict(
+    text=("Model of get_protein_group_results as a function run : state -> input -> shuffles -> oracles -> state x rows, with "
+          "every field the long-lived strategy objects keep between calls threaded explicitly. Theorems: the result depends on "
+          "the incoming state only through the competition's seen-set; every call (also a failing one) leaves the seen-set empty; "
+          "hence a call after ANY history of earlier calls on the same configuration object equals a fresh call; razor tables are "
+          "unread without the razor option. PARTIAL: the hash seed, numpy's RNG stream and networkx internals are runtime "
+          "behaviour the model cannot exhibit; they are explored by the correspondence: all 27 shipped methods against the model "
+          "with recorded oracles, random call histories on a re-used MethodConfig versus fresh ones, and CLI runs under 4 (quick) "
+          "/ 8 (thorough) PYTHONHASHSEED values compared byte for byte."),
+    note=COMMON_NOTE + "PARTIAL (interpreter hash seed, numpy RNG stream, networkx internals observed not proved). Scores, PEP "
+         "cutoffs, shuffles and splitter answers are recorded oracles here (own models: C05, C17, C02/C14, C04). Axioms: none.",
+    technique="Coq proof of history independence over an explicit state-threading model + schedule exploration (call histories, hash seeds) as correspondence",
+    design="5/C07")
+CLAIMED["C18"] = dict(
+    text=("The list of shipped methods is REGENERATED from /repo's methods/*.toml on every run (fail-closed translator) and the "
+          "finite-domain theorems are re-proved by vm_compute: no shipped method combines a rescue grouping with a score that "
+          "cannot rescue, none needs a proteinGroups.txt file. General theorems: an unsupported combination returns the tool's "
+          "own NotImplemented refusal; every table a run returns consists of rows built by from_protein_groups from a "
+          "do_competition ranking with calculate_protein_fdrs q-values (so C01/C02/C06 apply). Correspondence: the inference of "
+          "every shipped method against Model/Pipeline.v; the regenerated table against parse_method_toml's objects; subprocess "
+          "CLI runs of every method on generated input of the type it reads (MaxQuant, Percolator, FragPipe, Sage, DIA-NN tsv) "
+          "with the row-level monitor, without --fasta (own refusal expected), with input of another type (skip expected), two "
+          "methods at once."),
+    note=COMMON_NOTE + "Translator harness/gen_tables.py trusted (fail-closed; its output is compared with the real parser's "
+         "objects). Inputs where no group has any evidence are outside the domain. Parsing/writing layers are exercised by CLI "
+         "runs, not modelled here (C10/C13). Axioms: none.",
+    technique="regenerated-table theorems (vm_compute over the shipped list) + Coq pipeline model correspondence + CLI sweep",
+    design="5/C18")
+
 ALL = [f"C{i:02d}" for i in range(1, 21)]
 
 
